@@ -32,7 +32,7 @@ def gen_pipes(rnd, n):
         ctr[0] += 1
         return ctr[0]
     for k in range(n):
-        ps.append({"name": rnd.choice(["b", "a", "z", "m", "B"]) + str(k) if rnd.random() < 0.8 else f"p{k}",
+        ps.append({"name": rnd.choice(["b", "a", "z", "m", "B"]) + (str(k) if rnd.random() < 0.6 else "") if rnd.random() < 0.8 else f"p{k}",
                    "priority": rnd.choice([0, 10, 10, 20, 5]),
                    "items": [nxt() for _ in range(rnd.choice([0, 1, 1, 2]))],
                    "post": [nxt() for _ in range(rnd.choice([0, 1, 1, 2]))],
@@ -59,7 +59,7 @@ def gen_cases(tier, seed, gen, effort):
         order = rnd.sample(range(n), n)
         cases.append({"op": "resolve", "pipes": ps, "order": order, "order2": rnd.sample(range(n), n)})
         if n >= 3:
-            cases.append({"op": "init", "pipes": ps[:3]})
+            cases.append({"op": "init", "pipes": ps[:3], "history": rnd.random() < 0.5})
     return cases, False
 
 
@@ -72,10 +72,13 @@ def build(p):
     return ProcessingPipeline.from_dict(d)
 
 
-def observe(backend_cls, pipeline, user=True):
+def observe(backend_cls, pipeline, user=True, first_format=None):
     from sigma.collection import SigmaCollection
-    coll = SigmaCollection.from_dicts([{"title": "t", "logsource": {"category": "c"}, "detection": {"sel": {"f": "v"}, "condition": "sel"}}])
+    doc = {"title": "t", "logsource": {"category": "c"}, "detection": {"sel": {"f": "v"}, "condition": "sel"}}
+    coll = SigmaCollection.from_dicts([doc])
     b = backend_cls(pipeline) if user else backend_cls()
+    if first_format is not None:      # history: the same backend object converted with another output format before
+        b.convert(SigmaCollection.from_dicts([doc]), first_format)
     out = b.convert(coll)
     text = out if isinstance(out, str) else ";".join(map(str, out))
     m = re.search(r"\[eq 'f((?:_\d+)*)' ", text)
@@ -85,6 +88,11 @@ def observe(backend_cls, pipeline, user=True):
     lp = b.last_processing_pipeline
     return {"items": items, "post": post, "fins": fins, "vars": {k: v for k, v in lp.vars.items() if k in ("v", "w")},
             "applied": sorted(lp.applied_ids), "text": text}
+
+
+def spec_of(case, i):
+    """the name a pipeline is registered and requested under: distinct per pipeline, its order differs from the list order"""
+    return f"{case['pipes'][i]['name']}~{(i * 7) % 5}{i}"
 
 
 def run_impl(case):
@@ -99,19 +107,23 @@ def run_impl(case):
             return {"outcome": "ok", "obs": observe(B, ev(case["tree"]))}
         if case["op"] == "resolve":
             objs = [build(p) for p in case["pipes"]]
-            r = ProcessingPipelineResolver.from_pipeline_list(objs)
-            names = [case["pipes"][i]["name"] for i in case["order"]]
-            first = r.resolve(names)
+            # the pipelines are registered under specs that differ from their declared names (as files / plugin keys do)
+            r = ProcessingPipelineResolver({spec_of(case, i): o for i, o in enumerate(objs)})
+            first = r.resolve([spec_of(case, i) for i in case["order"]])
             o1 = observe(B, first)
-            second = r.resolve([case["pipes"][i]["name"] for i in case["order2"]])
+            second = r.resolve([spec_of(case, i) for i in case["order2"]])
             o2 = observe(B, second)
             return {"outcome": "ok", "obs": o1, "obs2": o2}
         if case["op"] == "init":
             from collections import defaultdict
             from sigma.processing.pipeline import ProcessingPipeline
             b, u, f = [build(p) for p in case["pipes"]]
-            B2 = type("InitB", (B,), {"backend_processing_pipeline": b, "output_format_processing_pipeline": defaultdict(ProcessingPipeline, default=f)})
-            return {"outcome": "ok", "obs": observe(B2, u)}
+            other = build({"name": "other", "priority": 0, "items": [97], "post": [98], "fins": [], "vars": {"v": 99}})
+            B2 = type("InitB", (B,), {"backend_processing_pipeline": b, "formats": {"default": "d", "alt": "a"},
+                                      "output_format_processing_pipeline": defaultdict(ProcessingPipeline, default=f, alt=other),
+                                      "finalize_query_alt": lambda self, rule, query, index, state: query,
+                                      "finalize_output_alt": lambda self, queries: queries})
+            return {"outcome": "ok", "obs": observe(B2, u, first_format="alt" if case.get("history") else None)}
     except Exception as e:
         return {"outcome": outcome_of_exception(e), "msg": str(e)[:200]}
 
@@ -123,8 +135,8 @@ def make_request(case, impl, gen):
     if case["op"] == "tree":
         r["tree"] = case["tree"]
     elif case["op"] == "resolve":
-        names = sorted({p["name"] for p in case["pipes"]})
-        r["resolve"] = [[case["pipes"][i]["priority"], names.index(case["pipes"][i]["name"]), i] for i in case["order"]]
+        specs = sorted(spec_of(case, i) for i in range(len(case["pipes"])))
+        r["resolve"] = [[case["pipes"][i]["priority"], specs.index(spec_of(case, i)), i] for i in case["order"]]
     else:
         r["init"] = [0, 1, 2]
     return r
@@ -132,13 +144,11 @@ def make_request(case, impl, gen):
 
 def judge(case, impl, reply):
     io = impl["outcome"]
-    key = (case["op"], case["pipes"], case.get("tree"), case.get("order"))
+    key = (case["op"], case["pipes"], case.get("tree"), case.get("order"), case.get("history"))
     markers = sum(len(p["items"]) + len(p["post"]) + len(p["fins"]) for p in case["pipes"])
     nt = len(case["pipes"]) >= 2 and markers >= 2
     tags = (f"op:{case['op']}", f"n:{len(case['pipes'])}", f"impl:{io.split(':')[0]}")
     names = [p["name"] for p in case["pipes"]]
-    if case["op"] == "resolve" and len(set(names)) != len(names):
-        return Verdict("ok", "", False, key, tags=tags + ("skipped:duplicate-names",))
     if io != "ok":
         return Verdict("violation", f"{case['op']} of {case['pipes']} raised {io}: {impl.get('msg')}", nt, key, tags=tags)
     want = {"items": reply["items"], "post": reply["post"], "fins": reply["fins"],
@@ -149,7 +159,7 @@ def judge(case, impl, reply):
         got = {k: obs[k] for k in ("items", "post", "fins", "vars")}
         if got != want:
             which = [k for k in want if got[k] != want[k]]
-            return Verdict("violation", (f"{label}{case['op']} {case.get('tree') or case.get('order') or ''} of "
+            return Verdict("violation", (f"{label}{case['op']}{' (the backend object converted with output format alt first)' if case.get('history') else ''} {case.get('tree') or case.get('order') or ''} of "
                                          f"{[(p['name'], p['priority'], p['items'], p['post'], p['fins'], p['vars']) for p in case['pipes']]}: "
                                          f"observed {({k: got[k] for k in which})} but composition is defined to give {({k: want[k] for k in which})}; output {obs['text']!r}"),
                            nt, key, tags=tags)
